@@ -42,6 +42,7 @@ type Contract struct {
 	Inline   bool   // force inlining at call sites even though a contract exists
 	Safety   []string // property tags for automatic no-panic obligations
 	NoSafety bool
+	Native   bool // lemma over strings and integers only: queries use the solvers' native string theory
 	Serves   []string // properties that claim this function's base clauses
 	Sites    []*Clause // call-site assertions: Label=callee key pattern
 	Params   []string // explicit formal names (for interface methods / externs)
@@ -105,7 +106,7 @@ type ContractSet struct {
 	Files   []string
 }
 
-var clauseRe = regexp.MustCompile(`^(premise|postulate|requires|ensures|modifies|loop|use|func|extern|iface|pred|ghost|devirt|noeffect|assumed|inline|safety|nosafety|params|pure|ufun|axiom|serves|modset|callsite|gstate)\b`)
+var clauseRe = regexp.MustCompile(`^(premise|postulate|requires|ensures|modifies|loop|use|func|extern|iface|pred|ghost|devirt|noeffect|assumed|inline|safety|nosafety|params|pure|nativestrings|ufun|axiom|serves|modset|callsite|gstate)\b`)
 
 func newContractSet() *ContractSet {
 	return &ContractSet{Funcs: map[string]*Contract{}, Defs: map[string]*SpecDef{}, NoEffectIfaces: map[string]bool{}, UFuns: map[string]*UFun{}, ModSets: map[string]*ModSet{}, GStates: map[string]*GState{}}
@@ -289,6 +290,9 @@ func (ct *Contract) addClause(kw, rest, file string, line int) error {
 		return nil
 	case "nosafety":
 		ct.NoSafety = true
+		return nil
+	case "nativestrings":
+		ct.Native = true
 		return nil
 	case "safety":
 		ct.Safety = cl.Tags
